@@ -8,6 +8,7 @@ Ranges inside the implementation are half-open; `toHalfOpen` converts the RFC's 
 -/
 import HttpServeModel.Lemmas.RangeParse
 import HttpServeModel.Lemmas.ServeLemmas
+import HttpServeModel.Lemmas.Misc
 
 namespace HS
 
@@ -92,5 +93,35 @@ example :
     let es : List RangeElem := [{ spec := .suffix 3, owsBefore := [32] }, { spec := .fromTo 0 (U64 - 1) }]
     (∀ e ∈ es, e.spec.fits) ∧ satisfiable 10 es = [(7, 9), (0, 9)] := by
   decide
+
+end HS
+
+namespace HS
+
+/-- In the property's words: multipart whenever the ranges plus 80 bytes of overhead each total
+under half the entity (unless the exact multipart length is not representable in 64 bits). -/
+theorem C03_multipart_when_under_half (m : Method) (hm : m ≠ .other) (hdr : Option Bytes) (e : Ent)
+    (now : Nat) (hlen : e.len < U64) (rs : List (Nat × Nat)) (h2 : 2 ≤ rs.length)
+    (hp : parseRange hdr e.len = .ok (.sat rs))
+    (hhalf : 2 * (rs.map fun x => 80 + (x.2 - x.1)).sum < e.len) :
+    ∃ r, serve (rangeOnly m hdr) e now = .ok r ∧ (r.status = 206 ∨ r.status = 413) := by
+  obtain ⟨r, hr, hcase⟩ := dispatch_multi m hm hdr e now hlen rs h2 hp
+  refine ⟨r, hr, ?_⟩
+  rw [if_pos (by omega)] at hcase
+  rcases hcase with ⟨h, _⟩ | ⟨h, _⟩
+  · exact Or.inl h
+  · exact Or.inr h
+
+/-- ... and never multipart when the ranges alone total L or more: a complete 200. -/
+theorem C03_complete_when_ranges_total_ge_L (m : Method) (hm : m ≠ .other) (hdr : Option Bytes)
+    (e : Ent) (now : Nat) (hlen : e.len < U64) (rs : List (Nat × Nat)) (h2 : 2 ≤ rs.length)
+    (hp : parseRange hdr e.len = .ok (.sat rs))
+    (htot : e.len ≤ (rs.map fun x => x.2 - x.1).sum) :
+    ∃ r, serve (rangeOnly m hdr) e now = .ok r ∧ r.status = 200 ∧ r.header .contentRange = none := by
+  obtain ⟨r, hr, hcase⟩ := dispatch_multi m hm hdr e now hlen rs h2 hp
+  refine ⟨r, hr, ?_⟩
+  have := sum_sizes_le_est rs
+  rw [if_neg (by omega)] at hcase
+  exact ⟨hcase.1, hcase.2.1⟩
 
 end HS
